@@ -768,3 +768,135 @@ Proof.
 Qed.
 
 End Clean.
+
+(* ============================== the property ============================== *)
+
+Definition guarantees (sorter : list entry -> list entry) (st : state) : Prop :=
+  never_removes_protected sorter st /\ only_whole_entries sorter st /\ accounts sorter st /\ meets_bound sorter st.
+
+Definition statement : Prop :=
+  forall sorter, (forall l, Permutation (sorter l) l) -> forall st, wf st = true -> guarantees sorter st.
+
+Lemma clean_partial sorter : (forall l, Permutation (sorter l) l) -> forall st, wf st = true ->
+  only_whole_entries sorter st /\ accounts sorter st
+  /\ (d_ancestor st = false -> d_tmp st = false -> never_removes_protected sorter st)
+  /\ (d_rename st = false -> meets_bound sorter st).
+Proof.
+  intros Hp st Hwf. split; [apply clean_whole; assumption|]. split; [apply clean_accounts; assumption|].
+  split; [intros; apply clean_safe; assumption | intros; apply clean_bound; assumption].
+Qed.
+
+Lemma clean_no_defect sorter : (forall l, Permutation (sorter l) l) -> forall st, wf st = true ->
+  defect_class st = None -> guarantees sorter st.
+Proof.
+  intros Hp st Hwf Hd. unfold defect_class in Hd.
+  destruct (d_ancestor st) eqn:E1; [discriminate|]. destruct (d_tmp st) eqn:E2; [discriminate|].
+  destruct (d_rename st) eqn:E3; [discriminate|].
+  destruct (clean_partial sorter Hp st Hwf) as [H1 [H2 [H3 H4]]].
+  split; [apply H3; assumption|]. split; [exact H1|]. split; [exact H2 | apply H4; assumption].
+Qed.
+
+(* ---- witnesses: the three defect classes on concrete caches ---- *)
+
+Lemma In_path_existsb (i : item) l : In i l -> existsb (fun j => path_eqb (i_path j) (i_path i)) l = true.
+Proof. intros H. apply existsb_exists. exists i. split; [exact H | apply path_eqb_refl]. Qed.
+
+Definition k_target : str := s "aaaaaaaaaaaaaaaaaaaaaaaaaaa=".   (* a target named like an entry *)
+Definition k_key : str := s "bbbbbbbbbbbbbbbbbbbbbbbbbbb=".      (* base64 of a 20-byte key *)
+Definition k_key2 : str := s "ccccccccccccccccccccccccccc=".
+
+(* uncompressed; //pkg:aaaaaaaaaaaaaaaaaaaaaaaaaaa= has been retrieved by this process *)
+Definition w_ancestor : state :=
+  mkState false
+    [ mkItem [s "cache"] true 4096 100;
+      mkItem [s "cache"; s "pkg"] true 4096 100;
+      mkItem [s "cache"; s "pkg"; k_target] true 4096 100;
+      mkItem [s "cache"; s "pkg"; k_target; k_key] true 4096 100;
+      mkItem [s "cache"; s "pkg"; k_target; k_key; s "out.a"] false 700 100 ]
+    [ ([s "cache"; s "pkg"; k_target; k_key], 0%N) ] 0 0.
+
+Lemma w_ancestor_refutes : wf w_ancestor = true /\ defect_class w_ancestor = Some KeyShapedAncestor
+  /\ ~ never_removes_protected isort w_ancestor.
+Proof.
+  split; [vm_compute; reflexivity|]. split; [vm_compute; reflexivity|]. intros H.
+  specialize (H (mkItem [s "cache"; s "pkg"; k_target; k_key; s "out.a"] false 700 100)).
+  apply In_path_existsb in H.
+  - vm_compute in H. discriminate.
+  - cbn. auto 10.
+  - exists [s "cache"; s "pkg"; k_target; k_key]. split; [left; reflexivity | vm_compute; reflexivity].
+Qed.
+
+(* compressed; a Store of //pkg:lib is in progress: the entry is marked, its file is being written *)
+Definition w_tmp : state :=
+  mkState true
+    [ mkItem [s "cache"] true 4096 100;
+      mkItem [s "cache"; s "pkg"] true 4096 100;
+      mkItem [s "cache"; s "pkg"; s "lib"] true 4096 100;
+      mkItem [s "cache"; s "pkg"; s "lib"; k_key ++ s "=.tar.gz"] false 300 100;
+      mkItem [s "cache"; s "pkg"; s "lib"; k_key2 ++ s ".tar.gz"] false 500 50 ]
+    [ ([s "cache"; s "pkg"; s "lib"; k_key ++ s ".tar.gz"], 0%N) ] 0 200.
+
+Lemma w_tmp_refutes : wf w_tmp = true /\ defect_class w_tmp = Some CompressedTmpUnmarked
+  /\ ~ never_removes_protected isort w_tmp.
+Proof.
+  split; [vm_compute; reflexivity|]. split; [vm_compute; reflexivity|]. intros H.
+  specialize (H (mkItem [s "cache"; s "pkg"; s "lib"; k_key ++ s "=.tar.gz"] false 300 100)).
+  apply In_path_existsb in H.
+  - vm_compute in H. discriminate.
+  - cbn. auto 10.
+  - exists [s "cache"; s "pkg"; s "lib"; k_key ++ s "=.tar.gz"]. split; [right; left; vm_compute; reflexivity | vm_compute; reflexivity].
+Qed.
+
+(* uncompressed; an entry and a left-over temporary entry of the same key, nothing marked *)
+Definition w_rename : state :=
+  mkState false
+    [ mkItem [s "cache"] true 4096 100;
+      mkItem [s "cache"; s "pkg"] true 4096 100;
+      mkItem [s "cache"; s "pkg"; s "lib"] true 4096 100;
+      mkItem [s "cache"; s "pkg"; s "lib"; k_key] true 4096 1000;
+      mkItem [s "cache"; s "pkg"; s "lib"; k_key; s "out.a"] false 700 100;
+      mkItem [s "cache"; s "pkg"; s "lib"; k_key ++ s "="] true 4096 9000;
+      mkItem [s "cache"; s "pkg"; s "lib"; k_key ++ s "="; s "out.a"] false 300 100 ]
+    [] 0 0.
+
+Lemma w_rename_refutes : wf w_rename = true /\ defect_class w_rename = Some RenameTargetOccupied
+  /\ ~ meets_bound isort w_rename.
+Proof.
+  split; [vm_compute; reflexivity|]. split; [vm_compute; reflexivity|]. intros H.
+  unfold meets_bound in H. destruct H as [H|H].
+  - vm_compute. discriminate.
+  - vm_compute in H. discriminate.
+  - vm_compute in H. discriminate.
+Qed.
+
+Lemma statement_refuted : ~ statement.
+Proof.
+  intros H. destruct w_ancestor_refutes as [Hwf [_ Hn]].
+  apply Hn. apply (H isort isort_perm w_ancestor Hwf).
+Qed.
+
+(* a cache without defects on which cleaning does something: two old entries, one retrieved,
+   one being stored; the larger old entry goes, the low water mark is reached *)
+Definition w_good : state :=
+  mkState false
+    [ mkItem [s "cache"] true 4096 100;
+      mkItem [s "cache"; s "pkg"] true 4096 100;
+      mkItem [s "cache"; s "pkg"; s "lib"] true 4096 100;
+      mkItem [s "cache"; s "pkg"; s "lib"; k_key] true 4096 1000;
+      mkItem [s "cache"; s "pkg"; s "lib"; k_key; s "out.a"] false 700 100;
+      mkItem [s "cache"; s "pkg"; s "lib"; k_key2] true 4096 1200;
+      mkItem [s "cache"; s "pkg"; s "lib"; k_key2; s "out.a"] false 9000 100;
+      mkItem [s "cache"; s "pkg"; s "t1"] true 4096 100;
+      mkItem [s "cache"; s "pkg"; s "t1"; k_key] true 4096 50;
+      mkItem [s "cache"; s "pkg"; s "t1"; k_key; k_key2] true 4096 50;
+      mkItem [s "cache"; s "pkg"; s "t1"; k_key2 ++ s "="] true 4096 5000;
+      mkItem [s "cache"; s "pkg"; s "t1"; k_key2 ++ s "="; s "part"] false 10 5000 ]
+    [ ([s "cache"; s "pkg"; s "t1"; k_key], 0%N); ([s "cache"; s "pkg"; s "t1"; k_key2], 0%N) ] 10000 9000.
+
+Lemma w_good_ok :
+  wf w_good = true /\ defect_class w_good = None
+  /\ (st_high w_good <= size_of w_good)%N
+  /\ map e_path (r_removed (clean w_good)) = [[s "cache"; s "pkg"; s "lib"; k_key2]]
+  /\ map e_path (r_kept (clean w_good)) = [[s "cache"; s "pkg"; s "lib"; k_key]]
+  /\ length (r_live (clean w_good)) = 10%nat.
+Proof. vm_compute. repeat split; discriminate. Qed.
